@@ -29,4 +29,12 @@ PROPS = {
         "trusted_base": ["cooperative scheduler on the verif yield hooks (harness/sched.go): exactly one registered goroutine runs between two hooks"],
         "timeout": {"quick": 300, "thorough": 3000},
     },
+    "C02": {
+        "suites": ["c02"],
+        "assumptions": COMMON_ASSUME + [
+            "one updating goroutine per gauge (the property's quantifier); the load of the value and the reporter call are one action in the model (no schedule point between them in the code; a pass pre-empted there could hand an older value to the reporter after a newer one - not exhibited, see DESIGN.md C02)",
+        ],
+        "trusted_base": ["cooperative scheduler on the verif yield hooks (harness/sched.go)"],
+        "timeout": {"quick": 300, "thorough": 3000},
+    },
 }
